@@ -276,7 +276,7 @@ def random_cases(ctx, count):
         return (txt, Real(f32_bits(v)))
     for _ in range(count):
         op = rng.choice(ARITH + ["floor-quotient", "floor-remainder", "abs", "floor", "ceiling"])
-        k = 1 if op in ("abs", "floor", "ceiling") else (2 if op.startswith("floor-") else rng.randint(1, 4))
+        k = 1 if op in ("abs", "floor", "ceiling") else (2 if op.startswith("floor-") else (rng.randint(1, 4) if rng.random() > 0.04 else rng.choice([8, 16, 40])))
         out.append((op, [rnd_operand() for _ in range(k)]))
     return out
 
